@@ -106,6 +106,8 @@ func (params *filterParams) typeofNode(n ast.Node) types.Type {
 		e = n
 	case *ast.Field:
 		e = n.Type
+	case *ast.ExprStmt:
+		e = n.X // An expression statement has the type of its expression (see subExpr)
 	}
 	if typ := params.ctx.Types.TypeOf(e); typ != nil {
 		return typ
